@@ -629,9 +629,13 @@ theorem indexDef2_quiet (n : PTree) (c c' : IndexCtx) (htr : c.fileTrace ≠ [])
   have p1 : PreRel c c1 := pre_sameFileDefset.run _ _ _ h1
   dsimp only at hrun
   split at hrun
-  · rename_i nameValue _
-    obtain ⟨x2, c2, h2, hrun⟩ := IxM.run_bind_ok hrun
-    have p2 : PreRel c c2 := KeepRel.trans p1 ((pre_indexNameValue _).run _ _ _ h2)
+  all_goals
+    obtain ⟨named, c2, h2, hrun⟩ := IxM.run_bind_ok hrun
+    have p2 : PreRel c c2 := by
+      first
+        | exact KeepRel.trans p1 ((pre_indexNameValue _).run _ _ _ h2)
+        | (have e : c2 = c1 := by cases h2; rfl
+           rw [e]; exact p1)
     split at hrun
     · rename_i name loc
       obtain ⟨m, c3, h3, hrun⟩ := IxM.run_bind_ok hrun
@@ -707,30 +711,28 @@ theorem indexDef2_quiet (n : PTree) (c c' : IndexCtx) (htr : c.fileTrace ≠ [])
           · intro hb
             rw [hb] at hrun
             cases hrun; rfl
-    · cases hrun
-      exact p2.1
-  · obtain ⟨nm, c2, h2, hrun⟩ := IxM.run_bind_ok hrun
-    have p2 : PreRel c c2 := KeepRel.trans p1 (pre_nextAnonymousDefName.run _ _ _ h2)
-    obtain ⟨f, c3, h3, hrun⟩ := IxM.run_bind_ok hrun
-    have p3 : PreRel c c3 := KeepRel.trans p2 ((currentFileId_keeps (R := PreRel)).run _ _ _ h3)
-    obtain ⟨id, c4, h4, hrun⟩ := IxM.run_bind_ok hrun
-    have h4' : (addAnonymousDef { name := nm, kind := .def_, defineLoc := ⟨f, n.start, n.stop⟩ }).run c3 =
-        .ok ((c3.symbolMap.addAnonymousDef { name := nm, kind := .def_, defineLoc := ⟨f, n.start, n.stop⟩ }).1,
-          c3.setSM (c3.symbolMap.addAnonymousDef { name := nm, kind := .def_, defineLoc := ⟨f, n.start, n.stop⟩ }).2) := rfl
-    rw [h4'] at h4
-    cases h4
-    have hsz := addAnonymousDef_size c3.symbolMap { name := nm, kind := .def_, defineLoc := ⟨f, n.start, n.stop⟩ }
-    obtain ⟨_, c6, h6, hrun⟩ := IxM.run_bind_ok hrun
-    refine hfin _ _ c6 (hadd c3 _ hsz.2 p3) ?_ h6 ?_ ?_
-    · simp only [IndexCtx.setSM_symbolMap, hsz.1, hsz.2]; omega
-    · intro rb hb
-      rw [hb] at hrun
-      simp only at hrun
-      obtain ⟨_, c7, h7, h8⟩ := IxM.run_bind_ok hrun
-      exact ⟨c7, h7, h8⟩
-    · intro hb
-      rw [hb] at hrun
-      cases hrun; rfl
+    · obtain ⟨nm, c2a, h2a, hrun⟩ := IxM.run_bind_ok hrun
+      have p2a : PreRel c c2a := KeepRel.trans p2 (pre_nextAnonymousDefName.run _ _ _ h2a)
+      obtain ⟨f, c3, h3, hrun⟩ := IxM.run_bind_ok hrun
+      have p3 : PreRel c c3 := KeepRel.trans p2a ((currentFileId_keeps (R := PreRel)).run _ _ _ h3)
+      obtain ⟨id, c4, h4, hrun⟩ := IxM.run_bind_ok hrun
+      have h4' : (addAnonymousDef { name := nm, kind := .def_, defineLoc := ⟨f, n.start, n.stop⟩ }).run c3 =
+          .ok ((c3.symbolMap.addAnonymousDef { name := nm, kind := .def_, defineLoc := ⟨f, n.start, n.stop⟩ }).1,
+            c3.setSM (c3.symbolMap.addAnonymousDef { name := nm, kind := .def_, defineLoc := ⟨f, n.start, n.stop⟩ }).2) := rfl
+      rw [h4'] at h4
+      cases h4
+      have hsz := addAnonymousDef_size c3.symbolMap { name := nm, kind := .def_, defineLoc := ⟨f, n.start, n.stop⟩ }
+      obtain ⟨_, c6, h6, hrun⟩ := IxM.run_bind_ok hrun
+      refine hfin _ _ c6 (hadd c3 _ hsz.2 p3) ?_ h6 ?_ ?_
+      · simp only [IndexCtx.setSM_symbolMap, hsz.1, hsz.2]; omega
+      · intro rb hb
+        rw [hb] at hrun
+        simp only at hrun
+        obtain ⟨_, c7, h7, h8⟩ := IxM.run_bind_ok hrun
+        exact ⟨c7, h7, h8⟩
+      · intro hb
+        rw [hb] at hrun
+        cases hrun; rfl
 
 def coreStatement2 (s : PTree) : Bool := (s.kind == .Class && coreClass2 s) || (s.kind == .Def && coreDef2 s)
 
